@@ -44,13 +44,24 @@ def render(params):
 
 
 def run(scn):
+    a = run1(scn, False)
+    if a is None:
+        return None
+    b = run1(scn, True) or []
+    for p in b:
+        p["rendering"] = "async def"
+    return a + b
+
+
+def run1(scn, is_async):
+    import asyncio
     params = scn["params"]
     sig = render(params)
     env = {"Obj": Obj}
     for name, kind, has_default in params:
         if has_default:
             env["DEF_" + name] = Obj("default:" + name)
-    src = "def f(%s):\n    return dict(locals())\n" % sig
+    src = "%sdef f(%s):\n    return dict(locals())\n" % ("async " if is_async else "", sig)
     exec(src, env)
     f = env["f"]
     pos = [Obj("pos%d" % i) for i in range(scn["npos"])]
@@ -59,7 +70,7 @@ def run(scn):
         inspect.signature(f).bind(*pos, **kw)
     except TypeError:
         return None  # Python cannot bind this call: outside the property's quantifier
-    body = f(*pos, **kw)
+    body = asyncio.run(f(*pos, **kw)) if is_async else f(*pos, **kw)
     problems = []
     for name, kind, _ in params:
         if kind in ("VP", "VK"):
@@ -70,7 +81,10 @@ def run(scn):
         cap = eval("lambda %s: %s" % (name, name))
         g = icontract.require(cond)(icontract.snapshot(cap, name="snap")(icontract.ensure(post)(f)))
         try:
-            g(*pos, **kw)
+            if is_async:
+                asyncio.run(g(*pos, **kw))
+            else:
+                g(*pos, **kw)
         except TypeError as e:
             problems.append({"param": name, "what": "call rejected: %s" % str(e)[:120]})
             continue
